@@ -688,6 +688,52 @@ def fam_mapped(rng, thorough):
     return dict(name='mapped', hosts=[h], ops=ops)
 
 
+JUMBO_MTUS = [65536, 131072, 65537, 65535]
+
+
+def fam_jumbo(rng, thorough, k):
+    """Links whose MTU is at or beyond what the 16-bit length fields can express (65535, 65536, 65537, 131072):
+    no frame may exceed the fields.  Always: an IPv4 TCP connection to a raw peer announcing a huge MSS, one write
+    larger than a full segment (the peer acknowledges; its window covers a full segment).  In rotation: the same
+    over IPv6, maximal UDP datagrams v4/v6, maximal and over-sized pings v4/v6 (the over-sized ones must be refused: regression of F30), a maximal echo request to answer."""
+    mtu = JUMBO_MTUS[k % 4]
+    h = single_host(rng, mtu=mtu, resolve=False)
+    ops = []
+    extras = ['ping4', 'ping6', 'tcp6', 'udp4', 'udp6', 'echo4', 'echo6']
+    extra = extras[k % len(extras)]
+    pid = 0
+    for v in [4] + ([6] if extra == 'tcp6' else []):
+        pid += 1
+        cs = 30 + pid
+        peer, local = ('10.0.0.9', '10.0.0.1') if v == 4 else ('fd00::9', 'fd00::1')
+        # an MSS that does not limit the link: the segment size is then what the stack derives from the MTU
+        combo = dict(mss=rng.choice(([65535, 65496] if k % 4 != 3 else [65535, 65495]) if v == 4 else [65535, 65476, 65475]))
+        if (k // 4) % 2 == 1:
+            combo.update(ts=True, tsval=rng.randrange(1, 1 << 30), sackperm=True)
+        ops += [dict(op='sock', s=cs, proto='tcp', v=v),
+                dict(op='rpeer', p=pid, nic=1, src=peer, sport=9000 + pid, dst=local, dport=0, isn=rng.randrange(1 << 31), autoack=True),
+                dict(op='connect', s=cs, addr=peer, port=9000 + pid), dict(op='rsynack', p=pid, opts=combo), dict(op='connect_wait', s=cs)]
+        n = 65535 + rng.choice([0, 1, 100])          # more than any full segment: the first segment is full-sized
+        ops += [dict(op='write', s=cs, n=3, seed=1), dict(op='rwait', p=pid, bytes=3),
+                dict(op='write', s=cs, n=n, seed=rng.randrange(1 << 24)), dict(op='rwait', p=pid, bytes=3 + n), dict(op='close', s=cs)]
+    if extra in ('udp4', 'udp6'):
+        v = int(extra[-1])
+        ops += [dict(op='sock', s=1, proto='udp', v=v), dict(op='bind', s=1, addr='', port=5100)]
+        for n in ([65507, 65508] if v == 4 else [65527, 65528]) + [65535, 7]:
+            ops.append(dict(op='write', s=1, n=n, seed=n, to=dict(addr='10.0.0.9' if v == 4 else 'fd00::9', port=7)))
+    if extra in ('ping4', 'ping6'):
+        v = int(extra[-1])
+        ops.append(dict(op='sock', s=2, proto=extra, v=v))
+        for n in ([65507, 65508] if v == 4 else [65527, 65528]) + [65535, 9]:            # n payload bytes after the 8-byte echo header
+            ops.append(dict(op='write', s=2, n=n, seq=n & 0xffff, seed=n, to=dict(addr='10.0.0.9' if v == 4 else 'fd00::9', port=0)))
+    if extra in ('echo4', 'echo6'):
+        v = int(extra[-1])
+        ops.append(dict(op='inject', nic=1, kind='echo', src='10.0.0.9' if v == 4 else 'fd00::9', dst='10.0.0.1' if v == 4 else 'fd00::1',
+                        ident=5, seq=6, n=65507 if v == 4 else 65527, seed=5))
+    ops.append(dict(op='settle', ms=15))
+    return dict(name='jumbo-%d-%s' % (mtu, extra), hosts=[h], ops=ops)
+
+
 def fam_udp_big(rng, thorough):
     """datagrams at the 16-bit length limits on a 64 KiB link (F3 territory): the length fields must not wrap"""
     h = single_host(rng, mtu=65535, resolve=False)
@@ -717,7 +763,7 @@ def gen_scenarios(ctx, budget_frames):
             (fam_offload(rng, th), 9), (fam_eth_single(rng, th), 17), (fam_resolve(rng, th, 'eth'), 10),
             (fam_pair(rng, th, kind='ip', v=4, mtu=[68, 576, 1500][k % 3]), 60), (fam_pair(rng, th, kind='ip', v=6), 40),
             (fam_pair(rng, th, kind='eth', v=rng.choice([4, 6])), 45), (fam_pair(rng, th), 45),
-            (fam_gateway(rng, th, 'ip'), 40), (fam_gateway(rng, th, 'eth'), 36), (fam_dense(rng, th), 95), (fam_mapped(rng, th), 40),
+            (fam_gateway(rng, th, 'ip'), 40), (fam_gateway(rng, th, 'eth'), 36), (fam_dense(rng, th), 95), (fam_mapped(rng, th), 40), (fam_jumbo(rng, th, k), 12),
         ]
         if th and k % 8 == 0:
             round_.append((fam_udp_big(rng, th), 3))
@@ -848,17 +894,21 @@ def validate(ctx, segs, name, max_cost=600000, extra_jobs=()):
     return fails, time.time() - t0, known, extra
 
 
-KNOWN_SHAPES = [
-    # (key, predicate over (label, clauses)): the shapes of findings already recorded (see known_findings.json)
-    ('F12', lambda lab, cl: 'icmp6 t128' in lab and cl == ['icmp6.checksum']),
-    ('F13', lambda lab, cl: lab.startswith('eth/icmp6 t135') and cl == ['eth.src']),
-]
+def _l3(ev):
+    raw = ev.get('raw') or []
+    if ev.get('proto') == 0 and len(raw) >= 14:
+        return raw[12] * 256 + raw[13], raw[14:]
+    return ev.get('proto'), raw
 
 
-def classify(label, clauses):
-    for key, pred in KNOWN_SHAPES:
-        if pred(label or '', clauses):
-            return key
+def classify(ev, clauses):
+    """the shapes of findings already recorded (see known_findings.json); judged on the frame bytes"""
+    lab = ev.get('i') or ''
+    typ, p = _l3(ev)
+    if 'icmp6 t128' in lab and clauses == ['icmp6.checksum']:
+        return 'F12'
+    if lab.startswith('eth/icmp6 t135') and clauses == ['eth.src']:
+        return 'F13'
     return None
 
 
@@ -903,7 +953,7 @@ def validate_capture(ctx, path, name=None, report=True, what='capture'):
         if report and (si, tuple(clauses)) not in seen:
             seen.add((si, tuple(clauses)))
             ctx.violation('%s: emitted frame fails %s (%s)' % (what, ','.join(clauses), ev.get('i', '')),
-                          dict(kind='capture', path=path, **rec), key=classify(ev.get('i'), clauses))
+                          dict(kind='capture', path=path, **rec), key=classify(ev, clauses))
     ctx.traces += out['accepted_segments']
     return out
 
@@ -1037,7 +1087,7 @@ def run(ctx):
                 ctx.violation('emitted frame fails %s: %s on host %s nic %s, scenario %s' % (','.join(clauses), ev.get('i'), ev.get('host'), ev.get('nic'), scs[si]['name']),
                               dict(kind='scenario', scenario=scs[si], event_index=ei, clauses=clauses, frame=hexs(ev.get('raw', [])), frame_bytes=ev.get('raw'),
                                    proto=ev.get('proto'), label=ev.get('i')),
-                              key=classify(ev.get('i'), clauses))
+                              key=classify(ev, clauses))
     # ---- guards that only matter for a clean verdict: a crashed or thin run proves nothing
     if not ctx.violations:
         for x in extra:
